@@ -205,6 +205,17 @@ fn candidates_file(f: &FileScn) -> Vec<FileScn> {
         c.extra_polls = 0;
         out.push(c);
     }
+    for (i, op) in f.post.iter().enumerate() {
+        if let crate::scn::ByteOp::Run { at, pattern, count } = op {
+            for n in [count / 16, count / 2, count - count / 8, count.saturating_sub(1)] {
+                if n > 0 && n < *count {
+                    let mut c = f.clone();
+                    c.post[i] = crate::scn::ByteOp::Run { at: *at, pattern: pattern.clone(), count: n };
+                    out.push(c);
+                }
+            }
+        }
+    }
     for (i, m) in f.msgs.iter().enumerate() {
         if m.seal != Seal::Good {
             let mut c = f.clone();
@@ -262,7 +273,20 @@ pub fn candidates(s: &Scenario) -> Vec<Scenario> {
 }
 
 fn size(s: &Scenario) -> usize {
-    serde_json::to_string(s).map(|x| x.len()).unwrap_or(usize::MAX)
+    let json = serde_json::to_string(s).map(|x| x.len()).unwrap_or(usize::MAX);
+    // a run is as large as the bytes it stands for
+    let runs: usize = match s {
+        Scenario::File(f) => f
+            .post
+            .iter()
+            .map(|op| match op {
+                crate::scn::ByteOp::Run { pattern, count, .. } => pattern.len() * count,
+                _ => 0,
+            })
+            .sum(),
+        _ => 0,
+    };
+    json.saturating_add(runs)
 }
 
 /// greedy first-improvement descent, bounded by `budget` executions
